@@ -1,8 +1,10 @@
 (* Props/C02.v — multilinear products equal their definition in every representation.
    Only statements, `exact`, Print Assumptions. Specs: Model/C02Spec.v; models: Model/C02*.v; proofs: Proofs/C02*.v *)
 From Coq Require Import List Arith Bool ZArith Ring.
-From PV Require Import Base.Index Base.Perm Base.Sum Np.Array Model.Sparse Model.Repr
-                       Model.C02Spec Model.C02Dense Model.C02Sparse Proofs.C02DenseProofs Proofs.C02SparseProofs.
+From PV Require Import Base.Index Base.Perm Base.Sum Np.NpZ Np.Array Model.Sparse Model.Repr Gen.GenUtils
+                       Model.C02Spec Model.C02Dense Model.C02Sparse Model.C02Modes Model.C02Kruskal Model.C02SpKernels Model.C02Absorb
+                       Proofs.C02DenseProofs Proofs.C02SparseProofs Proofs.C02ModesProofs Proofs.C02MttkrpProofs
+                       Proofs.C02KruskalProofs Proofs.C02SpKernelsProofs Proofs.C02AbsorbProofs.
 Import ListNotations.
 
 Section C02.
@@ -44,15 +46,79 @@ Theorem C02_khatrirao_rev : forall R Us j r, Us <> [] -> Forall (wf_cols V R) Us
   mget v0 (kr_rev vmul Us) (sub2ind (map (@length _) Us) j) r = kprod v0 v1 vmul Us j r.
 Proof. exact (mget_kr_rev V v0 v1 vadd vmul vsub vopp Vring). Qed.
 
-(* dense mttkrp, factor list, branch n = 0: reshape(data, (I_0, rest)) @ khatrirao(U[1:], reverse=True) *)
-Theorem C02_mttkrp_dense_n0 : forall (X : dense V) Us R,
-  wf_dense X -> 2 <= length (dshape X) -> length Us = length (dshape X) ->
-  Forall (wf_cols V R) (skipn 1 Us) -> map (@length _) (skipn 1 Us) = skipn 1 (dshape X) ->
-  let Y := impl_mttkrp_dense v0 vadd vmul X Us 0 R in
-  dshape Y = [nth 0 (dshape X) 0; R] /\ wf_dense Y /\
-  forall x r, x < nth 0 (dshape X) 0 -> r < R ->
-    den_dense v0 Y [x; r] = spec_mttkrp v0 v1 vadd vmul (den_dense v0 X) (dshape X) 0 (repeat v1 R) Us x r.
-Proof. exact (impl_mttkrp_dense_n0_correct V v0 v1 vadd vmul vsub vopp Vring). Qed.
+(* dense mttkrp, factor list, every mode n (the three branches of tensor.mttkrp: n = 0, n = N-1, 0 < n < N-1) *)
+Theorem C02_mttkrp_dense : forall (X : dense V) Us R n,
+  wf_dense X -> 2 <= length (dshape X) -> n < length (dshape X) ->
+  length Us = length (dshape X) -> Forall (wf_cols V R) (remove_at n Us) ->
+  map (@length _) (remove_at n Us) = remove_at n (dshape X) ->
+  let Y := impl_mttkrp_dense v0 vadd vmul X Us n R in
+  dshape Y = [nth n (dshape X) 0; R] /\ wf_dense Y /\
+  forall x r, x < nth n (dshape X) 0 -> r < R ->
+    den_dense v0 Y [x; r] = spec_mttkrp v0 v1 vadd vmul (den_dense v0 X) (dshape X) n (repeat v1 R) Us x r.
+Proof. exact (impl_mttkrp_dense_correct V v0 v1 vadd vmul vsub vopp Vring). Qed.
+
+(* Kruskal operand "with its weights applied": get_mttkrp_factors absorbs the weights into a non-skipped factor; the defining sum
+   over that factor list with unit weights is the defining sum with the operand's weights.  A statement about the spec, so it
+   applies to the data in every representation (compose with C02_mttkrp_dense / _sparse / _k). *)
+Theorem C02_mttkrp_kruskal_operand : forall (f : idx -> V) s n (lam : list V) (Us : list (@matrix V)) R x r,
+  2 <= length Us -> n < length Us -> length s = length Us ->
+  Forall (wf_cols V R) (remove_at n Us) -> length lam = R -> r < R ->
+  spec_mttkrp v0 v1 vadd vmul f s n (repeat v1 R) (get_mttkrp_factors_k vmul lam Us n) x r =
+  spec_mttkrp v0 v1 vadd vmul f s n lam Us x r.
+Proof. exact (spec_mttkrp_absorb V v0 v1 vadd vmul vsub vopp Vring). Qed.
+
+(* sum of parts: innerprod, mttkrp and ttv of the sum are the sums of the parts' results (what sumtensor computes part by part) *)
+Theorem C02_sum_linear_innerprod : forall (parts : list (idx -> V)) (g : idx -> V) s,
+  spec_innerprod v0 vadd vmul (den_parts v0 vadd parts) g s =
+  sum_over v0 vadd parts (fun p => spec_innerprod v0 vadd vmul p g s).
+Proof. exact (spec_innerprod_sum V v0 v1 vadd vmul vsub vopp Vring). Qed.
+
+Theorem C02_sum_linear_mttkrp : forall (parts : list (idx -> V)) s n lam Us x r,
+  spec_mttkrp v0 v1 vadd vmul (den_parts v0 vadd parts) s n lam Us x r =
+  sum_over v0 vadd parts (fun p => spec_mttkrp v0 v1 vadd vmul p s n lam Us x r).
+Proof. exact (spec_mttkrp_sum V v0 v1 vadd vmul vsub vopp Vring). Qed.
+
+Theorem C02_sum_linear_ttv : forall (parts : list (idx -> V)) s dims vs i',
+  spec_ttv v0 vadd vmul (den_parts v0 vadd parts) s dims vs i' =
+  sum_over v0 vadd parts (fun p => spec_ttv v0 vadd vmul p s dims vs i').
+Proof. exact (spec_ttv_sum V v0 v1 vadd vmul vsub vopp Vring). Qed.
+
+(* ---- mode designation, tied to the GENERATED tt_dimscheck (Gen/GenUtils.v, re-translated from pyttb_utils.py on every run) ----
+   For every admissible request (dims in any order | exclude_dims | neither; one multiplicand per designated mode or one per
+   tensor mode) the helper returns the sorted designated modes and, for the k-th of them, the position of the multiplicand the
+   caller attached to that mode (attach: j-th multiplicand <-> j-th designated mode, resp. multiplicand m <-> mode m). *)
+Theorem C02_dimscheck_align : forall (A : Type) (dflt : A) N dims excl (ms : list A),
+  admissible N dims excl (zlen ms) ->
+  let d := req_modes N dims excl in
+  exists vidx, tt_dimscheck N (Some (zlen ms)) dims excl = Ok (np_sort d, Some vidx) /\
+    map (znth dflt ms) vidx = map (attach dflt d ms) (nats (np_sort d)) /\
+    (forall x, In x d -> (0 <= x < N)%Z) /\ NoDup d.
+Proof. exact (@dimscheck_align). Qed.
+
+(* tensor.ttv as called (request resolved by the generated helper) = spec_ttv over the caller's mode -> vector association *)
+Theorem C02_ttv_dense_req : forall (X : dense V) dims excl (vs : list (list V)),
+  wf_dense X -> admissible (Z.of_nat (length (dshape X))) dims excl (zlen vs) ->
+  let d := req_modes (Z.of_nat (length (dshape X))) dims excl in
+  let sd := nats (np_sort d) in
+  exists Y, impl_ttv_req v0 vadd vmul X dims excl vs = Ok Y /\
+    dshape Y = ttv_shape (dshape X) sd /\ wf_dense Y /\
+    forall i', inb (ttv_shape (dshape X) sd) i' = true ->
+      den_dense v0 Y i' = spec_ttv v0 vadd vmul (den_dense v0 X) (dshape X) sd (map (attach [] d vs) sd) i'.
+Proof. exact (impl_ttv_req_correct V v0 vadd vmul). Qed.
+
+(* tensor.ttm, list form, as called: the sequence of single-mode products over the sorted designated modes, each with the
+   matrix the caller attached to that mode (plain and transposed) *)
+Theorem C02_ttm_dense_req : forall (X : dense V) dims excl (ms : list (nat * @matrix V)) tr,
+  wf_dense X -> admissible (Z.of_nat (length (dshape X))) dims excl (zlen ms) ->
+  let d := req_modes (Z.of_nat (length (dshape X))) dims excl in
+  let sd := nats (np_sort d) in
+  let nUs := combine sd (map (attach (@ttm_dflt V) d ms) sd) in
+  d <> [] ->
+  exists Y, impl_ttm_req v0 vadd vmul X dims excl ms tr = Ok Y /\
+    dshape Y = ttm_list_shape (dshape X) nUs /\ wf_dense Y /\
+    forall i, inb (ttm_list_shape (dshape X) nUs) i = true ->
+      den_dense v0 Y i = spec_ttm_list v0 vadd vmul (den_dense v0 X) (dshape X) nUs tr i.
+Proof. exact (impl_ttm_req_correct V v0 vadd vmul). Qed.
 
 (* ---- sparse: a sum over all subscripts of den_sp(i) g(i) is the sum over the stored entries ---- *)
 Variable isz : V -> bool.
@@ -82,6 +148,52 @@ Theorem C02_ttv_k1 : forall (K : ktensor V) n v i',
   spec_ttv1 v0 vadd vmul (den_k v0 v1 vadd vmul K) (kshape K) n v i'.
 Proof. exact (impl_ttv_k1_correct V v0 v1 vadd vmul vsub vopp Vring). Qed.
 
+(* sparse ttv in one mode: gather v[subs[:, n]], scale the values, project the subscripts, accumulate equal projections *)
+Theorem C02_ttv_sparse1 : forall (S : sparse V) n v i', wf_sp isz S ->
+  n < length (sshape S) -> inb (remove_at n (sshape S)) i' = true ->
+  impl_ttv_sp1 v0 vadd vmul S n v i' = spec_ttv1 v0 vadd vmul (den_sp v0 S) (sshape S) n v i'.
+Proof. exact (impl_ttv_sp1_correct V v0 v1 vadd vmul vsub vopp Vring isz). Qed.
+
+(* both sides of the 50% switch: the result kept sparse and the same result densified (to_tensor) denote the same array *)
+Theorem C02_sparse_switch : forall (S : sparse V) i, Forall (fun j => inb (sshape S) j = true) (ssubs S) ->
+  den_dense v0 (full v0 S) i = den_sp v0 S i.
+Proof. exact (den_full v0). Qed.
+
+(* sparse mttkrp (a ttv with column r of every other factor, accumulated into row subs[:, n]) *)
+Theorem C02_mttkrp_sparse : forall (S : sparse V) (Us : list (@matrix V)) n R x r, wf_sp isz S ->
+  n < length (sshape S) -> x < nth n (sshape S) 0 -> r < R ->
+  impl_mttkrp_sp v0 v1 vadd vmul S Us n x r =
+  spec_mttkrp v0 v1 vadd vmul (den_sp v0 S) (sshape S) n (repeat v1 R) Us x r.
+Proof. exact (impl_mttkrp_sp_correct V v0 v1 vadd vmul vsub vopp Vring isz). Qed.
+
+(* Kruskal x Kruskal inner product by the Gram / Hadamard formula  sum( (w w'^T) * Π_n A_n^T B_n ) *)
+Theorem C02_innerprod_kk : forall K L : ktensor V, kshape K = kshape L ->
+  impl_innerprod_kk v0 vadd vmul K L =
+  spec_innerprod v0 vadd vmul (den_k v0 v1 vadd vmul K) (den_k v0 v1 vadd vmul L) (kshape K).
+Proof. exact (impl_innerprod_kk_correct V v0 v1 vadd vmul vsub vopp Vring). Qed.
+
+(* Kruskal norm()^2 = sum( (w w^T) * Π_n A_n^T A_n )   (the square root of the absolute value is outside the model) *)
+Theorem C02_normsq_k : forall K : ktensor V,
+  impl_normsq_k v0 vadd vmul K = spec_normsq v0 vadd vmul (den_k v0 v1 vadd vmul K) (kshape K).
+Proof. exact (impl_normsq_k_correct V v0 v1 vadd vmul vsub vopp Vring). Qed.
+
+(* Kruskal mttkrp, factor list:  A_n @ ( tile(w) * Π_{i<>n} A_i^T U_i ) *)
+Theorem C02_mttkrp_k : forall (K : ktensor V) (Us : list (@matrix V)) n R x c,
+  n < length (kfactors K) -> x < nth n (kshape K) 0 -> c < R ->
+  map (@length _) (remove_at n Us) = remove_at n (kshape K) ->
+  impl_mttkrp_k v0 vadd vmul K Us n x c =
+  spec_mttkrp v0 v1 vadd vmul (den_k v0 v1 vadd vmul K) (kshape K) n (repeat v1 R) Us x c.
+Proof. exact (impl_mttkrp_k_correct V v0 v1 vadd vmul vsub vopp Vring). Qed.
+
+(* representation independence, instance: the same array held sparse or dense gives the same MTTKRP, entry by entry *)
+Theorem C02_repr_indep_mttkrp : forall (S : sparse V) (X : dense V) Us R n x r,
+  wf_sp isz S -> wf_dense X -> sshape S = dshape X -> (forall i, den_sp v0 S i = den_dense v0 X i) ->
+  2 <= length (dshape X) -> n < length (dshape X) -> length Us = length (dshape X) ->
+  Forall (wf_cols V R) (remove_at n Us) -> map (@length _) (remove_at n Us) = remove_at n (dshape X) ->
+  x < nth n (dshape X) 0 -> r < R ->
+  impl_mttkrp_sp v0 v1 vadd vmul S Us n x r = den_dense v0 (impl_mttkrp_dense v0 vadd vmul X Us n R) [x; r].
+Proof. exact (repr_indep_mttkrp V v0 v1 vadd vmul vsub vopp Vring isz). Qed.
+
 (* representation independence, instance: the same array held sparse or dense gives the same inner product *)
 Theorem C02_repr_indep_innerprod : forall (S : sparse V) (X T : dense V),
   wf_sp isz S -> wf_dense X -> wf_dense T -> sshape S = dshape X -> dshape X = dshape T ->
@@ -95,13 +207,27 @@ Print Assumptions C02_innerprod_dense.
 Print Assumptions C02_normsq_dense.
 Print Assumptions C02_ttm_dense.
 Print Assumptions C02_khatrirao_rev.
-Print Assumptions C02_mttkrp_dense_n0.
+Print Assumptions C02_mttkrp_dense.
+Print Assumptions C02_mttkrp_kruskal_operand.
+Print Assumptions C02_sum_linear_innerprod.
+Print Assumptions C02_sum_linear_mttkrp.
+Print Assumptions C02_sum_linear_ttv.
+Print Assumptions C02_dimscheck_align.
+Print Assumptions C02_ttv_dense_req.
+Print Assumptions C02_ttm_dense_req.
 Print Assumptions C02_sparse_sum.
 Print Assumptions C02_innerprod_sparse_dense.
 Print Assumptions C02_innerprod_sparse_sparse.
 Print Assumptions C02_normsq_sparse.
 Print Assumptions C02_ttv_k1.
 Print Assumptions C02_repr_indep_innerprod.
+Print Assumptions C02_ttv_sparse1.
+Print Assumptions C02_sparse_switch.
+Print Assumptions C02_mttkrp_sparse.
+Print Assumptions C02_innerprod_kk.
+Print Assumptions C02_normsq_k.
+Print Assumptions C02_mttkrp_k.
+Print Assumptions C02_repr_indep_mttkrp.
 
 (* non-vacuity: concrete non-symmetric instances over Z *)
 Local Open Scope Z_scope.
@@ -122,4 +248,31 @@ Example C02_ex_innerprod_sp : impl_innerprod_sp_dense 0 Z.add Z.mul (mkSp [2; 3]
 Proof. reflexivity. Qed.
 Example C02_ex_ttv_k : impl_ttv_k1 0 Z.add Z.mul (mkK [2; 3] [[[1; 0]; [2; 1]]; [[1; 1]; [0; 2]; [3; 0]]]) 1 [1; -1; 2]
                        = mkK [14; -3] [[[1; 0]; [2; 1]]].
+Proof. reflexivity. Qed.
+Example C02_ex_mttkrp_last : impl_mttkrp_dense 0 Z.add Z.mul (mkDense [2; 3; 2]%nat [1; 2; 3; 4; 5; 6; 7; 8; 9; 10; 11; 12])
+                          [[[1]; [-1]]; [[1]; [0]; [2]]; [[0]; [0]]] 2 1 = mkDense [2; 1]%nat [-3; -3].
+Proof. reflexivity. Qed.
+Example C02_ex_mttkrp_mid : impl_mttkrp_dense 0 Z.add Z.mul (mkDense [2; 3; 2]%nat [1; 2; 3; 4; 5; 6; 7; 8; 9; 10; 11; 12])
+                          [[[1]; [-1]]; [[0]; [0]; [0]]; [[1]; [2]]] 1 1 = mkDense [3; 1]%nat [-3; -3; -3].
+Proof. reflexivity. Qed.
+(* a cyclic (non-involutive) dims order: vector j belongs to mode dims[j] *)
+Example C02_ex_ttv_req : impl_ttv_req 0 Z.add Z.mul (mkDense [2; 3; 2]%nat [1; 2; 3; 4; 5; 6; 7; 8; 9; 10; 11; 12])
+                          (Some [2; 0; 1]) None [[1; -1]; [1; 2]; [0; 1; 0]] = Ok (mkDense [] [-18]).
+Proof. reflexivity. Qed.
+Example C02_ex_ttm_req : impl_ttm_req 0 Z.add Z.mul (mkDense [2; 3]%nat [1; 2; 3; 4; 5; 6])
+                          None (Some [0]) [(1%nat, [[5; 5]]); (2%nat, [[1; 0; 2]; [0; 1; 0]])] false = Ok (mkDense [2; 2]%nat [11; 14; 3; 4]).
+Proof. reflexivity. Qed.
+Example C02_ex_innerprod_kk : impl_innerprod_kk 0 Z.add Z.mul (mkK [2; 3] [[[1; 0]; [2; 1]]; [[1; 1]; [0; 2]; [3; 0]]])
+                                (mkK [-1] [[[1]; [2]]; [[0]; [1]; [2]]]) = -72.
+Proof. reflexivity. Qed.
+Example C02_ex_mttkrp_k : impl_mttkrp_k 0 Z.add Z.mul (mkK [2; 3] [[[1; 0]; [2; 1]]; [[1; 1]; [0; 2]; [3; 0]]])
+                                [[[0]; [0]]; [[1]; [-1]; [2]]] 0 1 0 = 25.
+Proof. reflexivity. Qed.
+Example C02_ex_ttv_sp1 : map (impl_ttv_sp1 0 Z.add Z.mul (mkSp [2; 3]%nat [[1; 2]; [0; 1]; [1; 0]]%nat [5; 7; 2]) 1 [1; -1; 2]) [[0%nat]; [1%nat]] = [-7; 12].
+Proof. reflexivity. Qed.
+Example C02_ex_mttkrp_sp : map (fun x => impl_mttkrp_sp 0 1 Z.add Z.mul (mkSp [2; 3]%nat [[1; 2]; [0; 1]; [1; 0]]%nat [5; 7; 2])
+                                  [[[0]; [0]]; [[1]; [-1]; [2]]] 0 x 0) [0%nat; 1%nat] = [-7; 12].
+Proof. reflexivity. Qed.
+Example C02_ex_absorb : get_mttkrp_factors_k Z.mul [2; -1] [[[1; 1]; [0; 2]]; [[1; 2]; [3; 4]; [5; 6]]] 0
+                        = [[[1; 1]; [0; 2]]; [[2; -2]; [6; -4]; [10; -6]]].
 Proof. reflexivity. Qed.
